@@ -96,16 +96,19 @@ Section Penalty.
        beta = 0.; _k = k
        for i in range(_n[0]): beta += 2.*_k*max(-beta/(2.*_k), stored(i)); _k *= h
      -beta/(2.*_k) raises ZeroDivisionError when 2.*_k == 0.0                                          *)
-  Fixpoint lag_ineq_loop (ys : list (option num)) (h : num) (cnt i : nat) (beta kk : num) : lres :=
+  Fixpoint lag_ineq_loop (ys : list (option num)) (h : num) (cnt i : nat) (isinf : bool) (beta kk : num) : lres :=
     match cnt with
-    | O => LOk beta kk
+    | O => if isinf then LInf else LOk beta kk
     | S m => if eqb N (n2 *! kk) z0 then LRaise else
              match stored ys i with
-             | None => LInf
-             | Some s => lag_ineq_loop ys h m (S i)
+             | None => lag_ineq_loop ys h m (S i) true beta (kk *! h)      (* beta = inf from here on *)
+             | Some s => lag_ineq_loop ys h m (S i) isinf
                            (beta +! (n2 *! kk) *! nmax N (opp N beta /! (n2 *! kk)) s) (kk *! h)
              end
     end.
+  (* _k after the loop: k * h * ... * h *)
+  Fixpoint kloop (h : num) (cnt : nat) (kk : num) : num :=
+    match cnt with O => kk | S m => kloop h m (kk *! h) end.
 
   (* `float(k) * pow(h,_n[0]) if <violated> else 0.0` of the two uniform kinds *)
   Definition uni_amount (l : level) (violated : bool) : xval :=
@@ -137,12 +140,12 @@ Section Penalty.
         | LRaise => Raises
         end
     | LagIneq =>
-        match lag_ineq_loop (ly l) (lh l) (ln l) 0 z0 k with
+        match lag_ineq_loop (ly l) (lh l) (ln l) 0 false z0 k with
         | LOk beta kn =>
             if eqb N (n2 *! kn) z0 then Raises
             else let mpf := nmax N (opp N beta /! (n2 *! kn)) c in      (* max(-beta/(2.*_k), pf) *)
                  Fin (kn *! (mpf *! mpf) +! beta *! mpf)                 (* float(_k)*mpf**2 + beta*mpf *)
-        | LInf => NonFin
+        | LInf => if eqb N (n2 *! kloop (lh l) (ln l) k) z0 then Raises else NonFin
         | LRaise => Raises
         end
     end.
@@ -163,7 +166,15 @@ Section Penalty.
         match lk l with
         | UniEq | UniIneq => uni_amount l true
         | BarIneq => PInf
-        | LagEq | LagIneq => NonFin
+        | LagEq => NonFin
+        | LagIneq =>                                   (* the loop and max(-beta/(2.*_k), inf) still divide by 2.*_k *)
+            match lmul l with
+            | Some k => match lag_ineq_loop (ly l) (lh l) (ln l) 0 false z0 k with
+                        | LRaise => Raises
+                        | _ => if eqb N (n2 *! kloop (lh l) (ln l) k) z0 then Raises else NonFin
+                        end
+            | None => NonFin
+            end
         | QuadEq | LinEq | QuadIneq | LinIneq =>
             match lmul l with
             | Some k => if ltb N z0 (k *! hpow l) then PInf else NonFin
